@@ -21,7 +21,7 @@ fn rows_after_prefixes(def: &str, st: &str, input: &[&str]) -> Option<Vec<usize>
 fn check(def: &str, st: &str, files: &[Vec<&str>], aggregate: bool) -> Result<(), String> {
     let all: Vec<&str> = files.iter().flat_map(|f| f.iter().cloned()).collect();
     let full = q_files(def, st, files);
-    let (full_rows, _) = match rows(&full) { Some(x) => x, None => return Ok(()) };   // the unlimited query has no value here: nothing to compare
+    let (full_rows, _) = match rows(&full) { Some(x) => x, None => return Err(format!("{} over {:?} has no value ({:?}): the grid is not exercising it", st, files, full)) };
     let prefixes = if aggregate { None } else { rows_after_prefixes(def, st, &all) };
     for n in 0..full_rows.len() + 2 {
         let limited = q_files(def, &format!("{} LIMIT {}", st, n), files);
